@@ -286,7 +286,7 @@ func c06Run(t *testing.T, r *vlib.Run, c *c06Case) {
 }
 
 var c06Grid = []time.Duration{0, vMs, 1500 * vMs, vMinDelay - vMs, vMinDelay, vMinDelay + vMs, 4500 * vMs, 6 * time.Second, 6*time.Second + vMs}
-var c06GridThorough = []time.Duration{0, vMs, 1500 * vMs, vMinDelay - vMs, vMinDelay, vMinDelay + vMs, 6 * time.Second}
+var c06GridThorough = []time.Duration{0, vMs, vMinDelay - vMs, vMinDelay, vMinDelay + vMs}
 
 // TestVerifC06 — multicast RAs are rate limited to one per 3 s and every
 // trigger is satisfied within 3 s.
@@ -308,27 +308,36 @@ func TestVerifC06(t *testing.T) {
 	if r.Part == "det" {
 		// Bounded-exhaustive histories on the grid around the initial RA (anchor
 		// 0) and around the 16 s tick.
-		depth, grid := 3, c06Grid
-		if !r.Quick() {
-			depth, grid = 5, c06GridThorough
+		type plan struct {
+			depth int
+			grid  []time.Duration
 		}
-		for _, anchor := range []time.Duration{0, 16 * time.Second} {
-			var rec func(prefix []c06Ev, at time.Duration, name string)
-			rec = func(prefix []c06Ev, at time.Duration, name string) {
-				if len(prefix) > 0 {
-					c := &c06Case{ID: fmt.Sprintf("grid/%v%s", anchor, name), Min: 20 * time.Second, Max: 30 * time.Second, Evs: append([]c06Ev(nil), prefix...), Seed: time.Duration(len(name)) * 7919}
-					run(c)
-				}
-				if len(prefix) == depth {
-					return
-				}
-				for gi, g := range grid {
-					for k := 0; k < 2; k++ {
-						rec(append(prefix, c06Ev{At: at + g, Unicast: k == 1}), at+g, fmt.Sprintf("%s/%d%c", name, gi, "mu"[k]))
+		plans := []plan{{3, c06Grid}}
+		if !r.Quick() {
+			// all histories of <=4 events on the 9-point grid and of <=5 events on
+			// the 5-point grid around the 3 s boundary
+			plans = []plan{{4, c06Grid}, {5, c06GridThorough}}
+		}
+		for _, pl := range plans {
+			depth, grid := pl.depth, pl.grid
+			for _, anchor := range []time.Duration{0, 16 * time.Second} {
+				var rec func(prefix []c06Ev, at time.Duration, name string)
+				rec = func(prefix []c06Ev, at time.Duration, name string) {
+					if len(prefix) > 0 {
+						c := &c06Case{ID: fmt.Sprintf("grid%d/%v%s", len(grid), anchor, name), Min: 20 * time.Second, Max: 30 * time.Second, Evs: append([]c06Ev(nil), prefix...), Seed: time.Duration(len(name)) * 7919}
+						run(c)
+					}
+					if len(prefix) == depth {
+						return
+					}
+					for gi, g := range grid {
+						for k := 0; k < 2; k++ {
+							rec(append(prefix, c06Ev{At: at + g, Unicast: k == 1}), at+g, fmt.Sprintf("%s/%d%c", name, gi, "mu"[k]))
+						}
 					}
 				}
+				rec(nil, anchor, "")
 			}
-			rec(nil, anchor, "")
 		}
 	}
 
